@@ -12,7 +12,7 @@ PROP = dict(
           "with non-empty keys; hostile decoder input: ALL strings of length <= 6 (quick) / 8 (thorough) over "
           "{A z 9 + / = SP LF * 0x80} for Base64, {0 9 a F g SP} for hex, {% 4 a G 0 z +} for percent-decoding, plus random longer "
           "ones, inputs in exact-size heap blocks under ASan, result length >= 0 and <= input length. "
-          "Non-trivial: Base64 length not a multiple of 3; SHA-1 length within 9 bytes of a 64-byte block edge; percent strings "
+          "Added in seeding rounds 4-6: every decoder result is treated as the caller's (bytes appended, same text decoded again); the decodeBase64 overloads must agree on hostile text; url and query texts contain every byte value incl. NUL (query keys NUL-free); a sweep over every url text length 0..1100 in three flavours; (sha1mt) 2-8 threads hashing their own messages concurrently; the Array_<byte,N> encoder overloads on digests; results computed during static initialisation (before main) are compared with the reference. Non-trivial: Base64 length not a multiple of 3; SHA-1 length within 9 bytes of a 64-byte block edge; percent strings "
           "with a non-alphanumeric byte; dictionaries with >= 2 entries; hostile strings with '=' not at the end / odd length or "
           "non-hex digit / containing '%'. Distinct = distinct FNV-1a hash of the case (hashed parts) or distinct by construction "
           "(enumerated parts)."),
